@@ -414,7 +414,12 @@ def solution_single_time_step(
     if growing_season is True:
         # Calculate crop yield_ (tonne/ha)
         NewCond.DryYield = (NewCond.biomass / 100) * NewCond.harvest_index_adj
-        NewCond.FreshYield = NewCond.DryYield / (crop.YldWC / 100)
+        if crop.YldWC > 0:
+            NewCond.FreshYield = NewCond.DryYield / (crop.YldWC / 100)
+        else:
+            # dry matter content of the fresh yield is not specified for this
+            # crop, so no fresh yield can be derived
+            NewCond.FreshYield = 0
         # print( clock_struct.time_step_counter,(NewCond.biomass/100),NewCond.harvest_index_adj)
         # Check if crop has reached maturity
         if ((crop.CalendarType == 1) and (NewCond.dap >= crop.Maturity)) or (
